@@ -20,10 +20,11 @@ int main(int argc, char **argv){
     grid.loadConstructedPoints(x, y);
   }
   int logfd = open((dir + "/calls.log").c_str(), O_WRONLY | O_CREAT | O_APPEND, 0644);
-  int calls = 0;
+  int calls = 0; int die_at = getenv("VERIF_DIE_AT_CALL") ? atoi(getenv("VERIF_DIE_AT_CALL")) : 0;
   auto model = [&](std::vector<double> const &x, std::vector<double> &y, size_t)->void{
     size_t np = x.size() / d; y.resize(np * outs);
     for (size_t i=0;i<np;i++){
+      if (die_at > 0 && calls + 1 == die_at) _exit(9);   // second crash of a two-crash history: the process dies at the start of this model call
       std::vector<double> p(x.begin() + i * d, x.begin() + (i + 1) * d);
       for (int k=0;k<outs;k++) y[i * outs + k] = SymModel::dflt(p, k);
       char buf[256]; int n = snprintf(buf, sizeof buf, "CALL"); for (int j=0;j<d;j++) n += snprintf(buf + n, sizeof buf - n, " %.17g", p[j]); n += snprintf(buf + n, sizeof buf - n, "\n");
